@@ -79,6 +79,13 @@ def Schema.fillFragment (S : Schema) (mk : TypeId → Built) (d : Dfa) (q : Nat)
     | .error b => .error b
     | .ok opts => fragOfOpts opts
 
+/-- the `if frag.size:` block of `create_and_fill`: fillers in front of the given content -/
+def Schema.fillFront (S : Schema) (mk : TypeId → Built) (t : TypeId) (content : List Node) :
+    Except Built (List Node) :=
+  if fsize content != 0 then
+    (S.fillFragment mk (S.dfa t) 0 (S.types content) false).map (fun before => fappendSz before content)
+  else .ok content
+
 /-- `NodeType.create_and_fill(attrs, content, marks)` -/
 def Schema.createAndFill (S : Schema) : (fuel : Nat) → TypeId → Attrs → List Node → Marks → Built
   | 0, _, _, _, _ => .outOfFuel
@@ -91,11 +98,7 @@ def Schema.createAndFill (S : Schema) : (fuel : Nat) → TypeId → Attrs → Li
       -- content carrying marks the type does not allow: nothing can be built around it
       if !content.all (fun c => nt.allowsMarks c.marks) then .nothing
       else
-        let front : Except Built (List Node) :=
-          if fsize content != 0 then
-            (S.fillFragment mk (S.dfa t) 0 (S.types content) false).map (fun before => fappendSz before content)
-          else .ok content
-        match front with
+        match S.fillFront mk t content with
         | .error b => b
         | .ok frag =>
           match (S.dfa t).run 0 (S.types frag) with
